@@ -48,7 +48,7 @@ def domain(kind, n, vals):
     if kind in ("B", "Z"):
         return [0, 1]
     if kind == "W":
-        return list(range(1, n + 2))
+        return list(range(0, n + 2))        # width 0 declares "the value is 0"
     if kind == "M":
         return list(range(2, 9))
     return vals
